@@ -551,10 +551,15 @@ func c04WalkWrite(c *Ctx, f *ssa.Function, who string, mapV, listV ssa.Value) {
 	// the value parameter: v1 `val any`, v2 `val V` (stored as val.V)
 	isVal := func(v ssa.Value) bool {
 		v = unwrapMakeIface(v)
-		if p, ok := v.(*ssa.Parameter); ok && p.Name() == "val" {
+		// by position, not by name: (ctx, obj, index, val[, dtype])
+		if len(f.Params) < 4 {
+			return false
+		}
+		vn := pname(f.Params[3])
+		if p, ok := v.(*ssa.Parameter); ok && p == f.Params[3] {
 			return true
 		}
-		return strings.HasPrefix(path(v), "val.V") || path(v) == "val"
+		return strings.HasPrefix(path(v), vn+".V") || strings.HasPrefix(path(v), vn+".Value") || path(v) == vn
 	}
 	lastStep := func(b *ssa.BasicBlock) bool {
 		return hasFact(b, func(cond ssa.Value, pol bool) bool {
@@ -572,7 +577,7 @@ func c04WalkWrite(c *Ctx, f *ssa.Function, who string, mapV, listV ssa.Value) {
 				return false
 			}
 			ln, ok := bo.Y.(*ssa.Call)
-			return ok && builtinName(ln) == "len" && path(ln.Call.Args[0]) == "index"
+			return ok && builtinName(ln) == "len" && len(f.Params) >= 3 && path(ln.Call.Args[0]) == pname(f.Params[2])
 		})
 	}
 	nW := 0
@@ -2405,7 +2410,7 @@ func c04SliceCallSpec(f, si *ssa.Function, kInt int64) c04SliceSpec {
 	if len(f.Params) != 2 {
 		return res
 	}
-	ex := f.Params[1].Name()
+	ex := pname(f.Params[1])
 	lastNode := ""
 	cfg := &specCfg{MaxLoop: 1, MaxDepth: 3, MaxVisits: 400000, MaxAlts: 64, Consistent: true}
 	cfg.Call = func(fn *ssa.Function, call *ssa.Call, nth int, args []sval) (sval, bool) {
@@ -2441,7 +2446,7 @@ func c04SliceCallSpec(f, si *ssa.Function, kInt int64) c04SliceSpec {
 	}
 	var args []sval
 	for _, p := range f.Params {
-		args = append(args, symv(p.Name()))
+		args = append(args, symv(pname(p)))
 	}
 	outs, ab := cfg.run(f, args)
 	if ab != "" {
